@@ -334,7 +334,7 @@ func loadCorpus(c *run.Ctx) [][]byte {
 var c13Dict = []string{
 	"&a ", "*a", "<<: ", "<<: *a", "- ", ": ", "? ", "[", "]", "{", "}", ",", "#", "|", ">", "|-", "!!str ", "!!int ", "!!binary ", "!!map", "!custom ", "---\n", "...\n", "%YAML 1.2\n",
 	"9223372036854775808: x", "18446744073709551615: x", "0xFFFFFFFFFFFFFFFF: 1", "18446744073709551616: 1", "-9223372036854775809: 1", "0755", "-0", "2147483648", "9007199254740993", "1e400", "- 0x8000000000000000: k",
-	"\n9223372036854775808:\n  - a\n", "? 18446744073709551615\n: v\n", "1e400: k", ".inf: k", ".nan: k", "-.inf: k", "~: k", "null: k", "true: k", "2002-08-15: k", "!!binary aGk=: k",
+	"\n9223372036854775808:\n  - a\n", "? 18446744073709551615\n: v\n", "1e400: k", ".inf: k", ".nan: k", "-.inf: k", "~: k", "null: k", "true: k", "2002-08-15: k", "!!binary aGk=: k", "x: !!binary /w==", "!!binary gICA", "{b: !!binary //79}",
 	"null", "~", "true", ".inf", ".nan", "0x1f", "1e999", "2002-08-15", "\"", "'", "\\", "\t", "\n", "\n  ", "\n    - ", "steps:", "steps: ", "command:", "commands:", "plugins:", "type: ", "wait", "block",
 	"group:", "matrix:", "setup:", "adjustments:", "with:", "skip:", "cache:", "env:", "key:", "label:", "signature:", "trigger:", "type: group", "type: 5", "type: [a]", "steps: 5", "steps: {a: b}", " ", "\ufeff", "\x00", "\xff",
 }
